@@ -8,7 +8,8 @@ reload reaches the caller unchanged; that holds iff none of the handler types ca
 `BaseException`, `MakoException`, the two classes themselves, nor be bare.
 
 Emitted: the handler type names of every `except` clause of `_check` whose body raises (a bare clause is
-"BaseException"); whether `_load`'s own handler re-raises (a bare `raise` as its last statement).
+"BaseException"); whether the handler(s) directly around `Template(...)` in `_load` re-raise (a bare `raise` as the last
+statement).  `_load` without such a handler is a RegenError (never a vacuous `true`).
 """
 from __future__ import annotations
 
@@ -65,8 +66,11 @@ def gen(repo) -> str:
                     last = h.body[-1] if h.body else None
                     if not (isinstance(last, ast.Raise) and last.exc is None):
                         reraises = False
-    if not found and not any(isinstance(c, ast.Call) and getattr(c.func, "id", None) == "Template" for c in ast.walk(load)):
-        raise RegenError("%s: _load does not construct Template(...)" % REL)
+    if not found:
+        # no `try: … Template(...) … except: …; raise` any more: the shape the flag speaks about is gone, and
+        # "every handler re-raises" would be vacuous - a broken tie, to be looked at, rather than a silent `true`
+        raise RegenError("%s: _load has no except clause directly around the Template(...) construction "
+                         "(shape not understood: cannot tell what happens to a compile error)" % REL)
     out = [HEADER % REL, "\nnamespace MakoModel.Generated.ErrPos\n\n"]
     out.append("/-- exception classes the `except` clauses of `TemplateLookup._check` convert into\n"
                "    `TemplateLookupException` (a bare clause is listed as `BaseException`) -/\n")
